@@ -10,7 +10,7 @@ Stored under /verif/benign/<id>/ (patch.diff, meta.json with the outcome).
 """
 import json, os, shutil, subprocess, sys, tempfile
 VERIF = os.path.dirname(os.path.dirname(os.path.abspath(__file__)))
-ENV = dict(os.environ, GOFLAGS="-mod=mod", GOPROXY="off", GOSUMDB="off", GOTOOLCHAIN="local")
+ENV = dict(os.environ, GOFLAGS="-mod=mod", GOPROXY="off", GOSUMDB="off", GOTOOLCHAIN="local", VERIF_REPLAY_DIR="/verif/replays/.benign")
 
 
 def sh(cmd, cwd, env=ENV, timeout=7200):
@@ -32,6 +32,12 @@ def main():
         subprocess.run(["git", "clone", "-q", "--shared", "/repo", root], check=True)
         rc, out = sh(["git", "apply", "--3way", "--whitespace=nowarn", os.path.join(os.path.abspath(src), "patch.diff")], root)
         rep["applies"] = rc == 0 and "with conflicts" not in out
+        if not rep["applies"] and "with conflicts" in out:
+            # the variant rewrote lines that a later "fix:" commit in /repo also touched: take the variant's side
+            files = [l.split()[1] for l in out.splitlines() if l.startswith("U ")]
+            rc2, out2 = sh(["git", "checkout", "--theirs", "--"] + files, root)
+            rep["applies"] = rc2 == 0 and bool(files)
+            rep["conflict_resolved_with_variant_side"] = files
         if not rep["applies"]:
             print(json.dumps(rep), out[-600:])
             return 1
@@ -68,7 +74,7 @@ def main():
         if os.path.abspath(src) != os.path.abspath(keep):
             shutil.copy(os.path.join(src, "patch.diff"), keep)
         meta2 = dict(meta, id=bid, written_by="independent sub-agent given only the property text and a scratch worktree, asked for a property-PRESERVING change",
-                     confirmed={k: rep.get(k) for k in ("applies", "compiles", "suite_passes")}, checks=rep["checks"])
+                     confirmed={k: rep.get(k) for k in ("applies", "compiles", "suite_passes", "conflict_resolved_with_variant_side") if k in rep}, checks=rep["checks"])
         try:
             old = json.load(open(os.path.join(keep, "meta.json")))
             if old.get("triage"):
